@@ -861,7 +861,7 @@ func instance(g *gen, typ string, sh tla.Value, r row) {
 		c.obsX = func(o interface{}) string { return projBox(o.(*types.Transaction)) }
 		roundTrip(r, c)
 		// the JSON form (RPC, and the form box payloads travel in) must preserve value, hash and signers as well
-		r["j"], r["jv"], r["jh"], r["js"], r["jx"] = "-", "", "", "", ""
+		r["j"], r["jv"], r["jh"], r["js"], r["jx"], r["jq"] = "-", "", "", "", "", "ok"
 		stage(r, "json", func() {
 			js, err := json.Marshal(tx)
 			if err != nil {
@@ -876,6 +876,37 @@ func instance(g *gen, typ string, sh tla.Value, r row) {
 			r["j"] = "ok"
 			r["jv"], _, r["jh"], r["js"] = c.obs(t2)
 			r["jx"] = c.obsX(t2)
+			// a JSON document whose redundant members (hash, ...) do not match its content: whatever is decoded from it
+			// must be a self-consistent value - its hash is the hash of its own encoding, not what the document claims
+			var m map[string]interface{}
+			if json.Unmarshal(js, &m) != nil {
+				return
+			}
+			m["message"] = fmt.Sprintf("%v+edited", m["message"])
+			if am, ok := m["amount"].(string); ok && am != "" {
+				m["amount"] = am + "0"
+			}
+			b, err := json.Marshal(m)
+			if err != nil {
+				return
+			}
+			t3 := new(types.Transaction)
+			if json.Unmarshal(b, t3) != nil {
+				return // refusing the document is fine
+			}
+			enc, err := rlp.EncodeToBytes(t3)
+			if err != nil {
+				r["jq"] = "err:" + err.Error()
+				return
+			}
+			t4 := new(types.Transaction)
+			if err := rlp.DecodeBytes(enc, t4); err != nil {
+				r["jq"] = "err:" + err.Error()
+				return
+			}
+			if t3.Hash() != t4.Hash() {
+				r["jq"] = "hash of the value decoded from edited JSON differs from the hash of its own encoding"
+			}
 		})
 	case "log":
 		l := buildLog(g, sh.F("t").S(), sh.F("nv").S(), sh.F("ex").S(), sh.F("ver").S())
